@@ -172,6 +172,7 @@ type Msg struct {
 	To   string
 	Kind string // MemPoolDel | MemPoolPut | NotifyNewBlock | SyncStart | other type name
 	Ref  string // block id / tx id
+	Obj  interface{} `json:"-"` // the message itself
 }
 
 type recorder struct {
@@ -202,7 +203,7 @@ func (r *recorder) RequestFuture(m interface{}, timeout time.Duration, tip strin
 func (r *recorder) rec(m interface{}) {
 	r.mu.Lock()
 	defer r.mu.Unlock()
-	x := Msg{To: r.name}
+	x := Msg{To: r.name, Obj: m}
 	switch v := m.(type) {
 	case *message.MemPoolDel:
 		x.Kind, x.Ref = "MemPoolDel", v.Block.ID()
@@ -390,6 +391,9 @@ func (n *Node) Drop() {
 	db.VerifDrop(n.Dir)
 	os.RemoveAll(n.Dir)
 }
+
+// Hub returns the node's recording component hub.
+func (n *Node) Hub() *component.ComponentHub { return n.CS.Hub() }
 
 // TakeMsgs returns and clears the recorded outgoing messages.
 func (n *Node) TakeMsgs() []Msg {
